@@ -13,7 +13,9 @@ TRUSTED = [
 ]
 ASSUMPTIONS = [
     "members are finite rules / dates; every member stream is sorted (C01 for rrules)",
-    "an iterator created before a mutator and advanced after it is outside the proved history theorem (known finding D-C10-stale, oracle-only)",
+    "what an iterator created before a mutator ITSELF yields when advanced after it is not specified by the property (history_inv_any leaves exactly "
+    "these observations open); it is compared with the model (its own generation's machine) when the later mutators are rrule/exrule (the old "
+    "generator holds a live iterator over the set's date lists); every OTHER observation after such a resume is judged like any other",
 ]
 RULE = ("sets of 0..4 finite rrules and 0..6 dates per role, deliberately coinciding occurrences, exclusions that exhaust first, empty roles, the same "
         "(cached) rrule object in two roles; histories of 1..12 ops interleaving rrule/rdate/exrule/exdate with iterPartial k, iterFull, count, "
@@ -389,10 +391,7 @@ def judge_history(ctx, pending, cache, ops, obs, want, after_stale, origin):
                     "model_reproduces": False, "origin": origin, "members": table, "member_uses": uses}
             what = ("observation %d (%s) of history %s (cache=%s): got %s, set algebra on the members gives %s"
                     % (j, op_wire(ops[j]), describe(ops)[:300], cache, o[:200], w[:200]))
-            if after_stale[j]:
-                pending.append((what, case, o, w, "rset.run %d %s" % (int(cache), ";".join(op_wire(x) for x in ops)), j))
-            else:
-                ctx.violation(what, case, {"impl": o, "want": w})
+            ctx.violation(what, case, {"impl": o, "want": w})
             return False
     return True
 
@@ -427,7 +426,7 @@ def oracle(ctx):
         cache = rng.random() < 0.6
         # after a stale resume the model is faithful only when the later mutators are rrule/exrule (stale-rr): only then
         # are the observations in the stale window judged (and they are KNOWN only if the model reproduces them)
-        obs, want, after_stale = run_impl(cache, ops, judge_after_stale=(mode != "stale"))
+        obs, want, after_stale = run_impl(cache, ops)
         key = (cache, describe(ops))
         nontriv = nontrivial_history(ops, obs)
         ctx.case(key, nontrivial=nontriv)
@@ -446,34 +445,35 @@ def oracle(ctx):
         if nontriv and nsamples < 3:
             nsamples += 1
             ctx.sample({"cache": cache, "history": describe(ops)[:400], "observations": [o[:80] for o in obs]})
-    # the documented witness of D-C10-stale, replayed on the implementation on every run
+    # the former witness of D-C10-stale (repaired in /repo), replayed on the implementation on every run: regression stream
     wit = [("rr", (rrlib.daily(13, False), [86400 * k for k in range(13)])), ("open", 1), ("rd", 20 * 86400), ("resume", (0, 100)), ("q", ("all",)), ("q", ("cnt",))]
-    obs, want, after_stale = run_impl(True, wit)
-    ctx.case(("witness-stale",), nontrivial=True)
-    for j, (o, w) in enumerate(zip(obs, want)):
-        if w is not None and o != w:
-            pending.append(("witness D-C10-stale: observation %d (%s): got %s, set algebra gives %s" % (j, op_wire(wit[j]), o[:120], w[:120]),
-                            {"cache": True, "history": describe(wit), "failing_op": j, "after_stale_resume": bool(after_stale[j]), "model_reproduces": False},
-                            o, w, "rset.run 1 %s" % ";".join(op_wire(x) for x in wit), j))
-            break
-    # KNOWN only if the Lean model of the code (rset.run) reproduces exactly the observation the implementation made
-    if pending:
+    for cache in (True, False):
+        wit[0] = ("rr", (rrlib.daily(13, False), [86400 * k for k in range(13)]))
+        obs, want, after_stale = run_impl(cache, wit)
+        ctx.case(("witness-stale", cache), nontrivial=True)
+        judge_history(ctx, pending, cache, wit, obs, want, after_stale, "witness D-C10-stale")
+    # the stale iterator of a CACHED set goes on with the sequence it was created for
+    for n in (3, 13, 25):
+        from dateutil import rrule as R
+        s = R.rruleset(cache=True)
+        s.rrule(rrlib.daily(n, False))
+        it = iter(s); first = ints([next(it)])
+        if n == 3:
+            list(s)                     # the old generator is already exhausted when the member is added
+        s.rdate(rrlib.to_dt(40 * 86400))
         try:
-            got = ctx.driver([p[4] for p in pending])
-        except Exception:
-            got = ["-"] * len(pending)
-        for (what, case, o, w, req, j), g in zip(pending, got):
-            mobs = g[3:].split(";") if g.startswith("ok ") else []
-            case["model_reproduces"] = bool(j < len(mobs) and mobs[j] == o)
-            ctx.count("stale_window_failures_model_%s" % ("agrees" if case["model_reproduces"] else "differs"))
-            ctx.violation(what, case, {"impl": o, "want": w, "model": mobs[j] if j < len(mobs) else None})
+            rest = ints(list(it))
+        except Exception as ex:
+            rest = "err " + type(ex).__name__
+        ctx.case(("stale-own", n), nontrivial=True)
+        if rest != [86400 * k for k in range(1, n)] or ints(list(s)) != [86400 * k for k in range(n)] + [40 * 86400] or s.count() != n + 1:
+            ctx.violation("an iterator of a cached set of %d daily instants that has taken one, then rdate(+40d): the iterator continues with %s, list(set) has %d instants, count() = %r"
+                          % (n, rest, len(list(s)), s.count()),
+                          {"cache": True, "history": "rr%s;o1;rd%d;u0:100;qall;qcnt" % (ilist([86400 * k for k in range(n)]), 40 * 86400), "failing_op": 3,
+                           "after_stale_resume": True, "model_reproduces": False, "origin": "stale-own"}, None)
 
 
-KNOWN = {
-    # D-C10-stale, positional and mechanism-specific: the failing observation lies after a stale resume that really advanced
-    # an iterator, with no mutator in between, AND the Lean model of the code predicts exactly the observation made
-    "D-C10-stale": lambda v: bool(v["case"].get("after_stale_resume")) and bool(v["case"].get("model_reproduces")),
-}
+KNOWN = {}
 
 
 def parse_history(text, members=None, uses=None):
